@@ -99,6 +99,29 @@ func (r *shapedReader) Read(p []byte) (int, error) {
 	return n, nil
 }
 
+// callerBuf plays a caller that owns one buffer and reuses it for every Write call, as io.Copy does:
+// the chunk is copied into the buffer, written, and the buffer is overwritten as soon as Write
+// returns (io.Writer: "Write must not retain p").
+type callerBuf struct{ b []byte }
+
+func (cb *callerBuf) write(w io.Writer, chunk []byte) (int, error) {
+	if cap(cb.b) < len(chunk) {
+		cb.b = make([]byte, len(chunk))
+	}
+	p := cb.b[:len(chunk)]
+	copy(p, chunk)
+	n, err := w.Write(p)
+	scribble(p)
+	return n, err
+}
+
+// scribble overwrites a buffer the caller is free to reuse.
+func scribble(p []byte) {
+	for i := range p {
+		p[i] = 0xA5
+	}
+}
+
 // OpResult is what the implementation answered.
 type OpResult struct {
 	Err   error
@@ -145,7 +168,9 @@ func (a *actors) apply(ctx context.Context, o Op) OpResult {
 		}
 		switch o.K {
 		case "set":
-			r.Err = s.Set(ctx, o.Key, payload(o.ID, o.Size))
+			b := payload(o.ID, o.Size)
+			r.Err = s.Set(ctx, o.Key, b)
+			scribble(b) // the slice is the caller's again once Set has returned
 		case "setr":
 			r.Err = s.SetReader(ctx, o.Key, &shapedReader{b: payload(o.ID, o.Size), shape: o.Shape})
 		case "create":
@@ -156,9 +181,10 @@ func (a *actors) apply(ctx context.Context, o Op) OpResult {
 			}
 			b := payload(o.ID, o.Size)
 			var werr error
+			var cb callerBuf
 			for _, n := range o.Writes {
 				var m int
-				m, werr = f.Write(b[:n])
+				m, werr = cb.write(f, b[:n])
 				if werr != nil {
 					break
 				}
